@@ -1,7 +1,10 @@
 from engine import G
 
-LEVEL = "proof"
-LEVEL_TEXT = "see DESIGN.md section 5 C05"
+LEVEL = "other"
+LEVEL_TEXT = ("Mixed strength, reported per group: P = unbounded (loop contracts, symbolic n): exact-size memory safety, frame, "
+              "termination, flag ranges, ASSERT-freedom; Pc = complete over all 2^W words; B = value-exactness against "
+              "double-width reference arithmetic for concrete operand lengths (symbolic contents, every documented aliasing, "
+              "both editions); N = native differential search stand-in (not proof) where no back end answers.")
 ZZ = ["src/math/zz/zz_add.c", "src/math/ww.c", "src/core/mem.c", "src/core/util.c", "src/core/word.c",
       "src/core/u64.c", "src/core/u32.c", "src/core/u16.c"]
 GROUPS = []
@@ -12,9 +15,11 @@ for n in (1, 2, 4):
                         unwind=8 * n + 8, search=20000, split=True,
                         fn=["zzAdd", "zzAdd2", "zzAddW", "zzAddW2", "zzSub", "zzSub2", "zzSubW", "zzSubW2", "zzNeg",
                             "zzIsSumEq", "zzIsSumWEq"]))
-TRUSTED = []
-ASSUMPTIONS = []
-NOT_COVERED = []
+TRUSTED = ["harness/ref.h: reference arithmetic in a double-width type (the spec)"]
+ASSUMPTIONS = ["array lengths capped at 2^20 words in unbounded contracts (excludes only address-arithmetic overflow)",
+               "little-endian target; 64-bit words unless a group says arch=32"]
+NOT_COVERED = ["value-exactness of zzMul/zzSqr/zzDiv/zzMod/zzGCD/zzExGCD/zzPowerMod/zzRedBarr beyond what the listed groups state",
+               "zm/gfp/qr/gf2 object layers, ppMul Karatsuba, ppGCD/ppExGCD/ppMod"]
 
 WW = ["src/math/ww.c", "src/core/mem.c", "src/core/word.c", "src/core/u64.c", "src/core/u32.c", "src/core/u16.c"]
 WWFN_BASIC = ["wwCopy", "wwSwap", "wwEq", "wwEq_fast", "wwCmp", "wwCmp_fast", "wwCmp2", "wwCmp2_fast", "wwCmpW", "wwCmpW_fast",
